@@ -18,7 +18,7 @@ def _norm_ty(t):
 def inventory(data):
     out = {}
     for a in data.get('adts', []):
-        if len(a['variants']) == 1 and a['variants'][0]['fields'] and not a['variants'][0]['fields'][0]['name'].isdigit():
+        if len(a['variants']) == 1 and a['variants'][0]['fields']:
             out[a['path']] = [[f['name'], _norm_ty(f['ty'])] for f in a['variants'][0]['fields']]
     return out
 
@@ -75,6 +75,20 @@ def align_types(ref, act):
     for p, sh in fresh.items():
         groups.setdefault(key(p, sh), [[], []])[1].append(p)
     for k, (rs, as_) in groups.items():
+        if len(rs) == 1 and len(as_) == 1:
+            m[as_[0]] = rs[0]
+    # moved to another module under the same name (shape compared without the module)
+    def key2(path, shape):
+        nm = path.rsplit('::', 1)[-1]
+        return json.dumps([nm, shape if len(shape) > 1 else shape[0][1]])
+    g2 = {}
+    for p, sh in missing.items():
+        if p not in m.values():
+            g2.setdefault(key2(p, sh), [[], []])[0].append(p)
+    for p, sh in fresh.items():
+        if p not in m:
+            g2.setdefault(key2(p, sh), [[], []])[1].append(p)
+    for k, (rs, as_) in g2.items():
         if len(rs) == 1 and len(as_) == 1:
             m[as_[0]] = rs[0]
     return m
@@ -167,6 +181,7 @@ def align_fns(ref, act):
                 m[a['path']] = r['path']
     tier(lambda x: (x['parent'], x['sig']), False)          # renamed in place
     tier(lambda x: (x['file'], x['sig']), True)             # moved between impl blocks / to a free function of the same file
+    tier(lambda x: (x['path'].rsplit('::', 1)[-1], x['sig']), True)   # moved to another module / file under the same name
     # methods of LOCAL traits (`<KvBatch as Batchable>::create_fst`): trait and method may both have been renamed
     def local_trait(x):
         t = x.get('trait') or ''
